@@ -227,6 +227,25 @@ def make_harness(P):
                 for j, b in enumerate(bl):
                     conds.append(ctx.eq(np.asarray(d1[b.dofs[0]]), _ptrace(psi, [j])))
                 ctx.check("one-dof reduced density matrices = partial traces", ctx.all(conds))
+                # history: query, modify the SAME object in place, query again - nothing remembered from the first query may survive
+                if not P.get("cplx") and len(tree.node_list) >= 2:
+                    kf = ctx.real("kscale", 0.5)
+                    a.scale(kf, inplace=True)
+                    if a.root.children:
+                        a.push_cano_to_child(a.root, 0)
+                    v2 = treelib.dense_ttns(a)
+                    psi2 = v2.reshape(dims)
+                    rd2 = a.calc_1site_rdm()
+                    conds = []
+                    pos = 0
+                    for i, bn in enumerate(tree.node_list):
+                        k = sum(1 for b in bn.basis_sets if not isinstance(b, BasisDummy))
+                        keep = list(range(pos, pos + k))
+                        pos += k
+                        ref = _ptrace(psi2, keep)
+                        got = np.asarray(rd2[i])
+                        conds.append(ctx.eq(got.reshape(ref.shape) if got.size == ref.size else got, ref))
+                    ctx.check("after an in-place scale and a gauge move on the same object the one-site reduced density matrices are those of the NEW state", ctx.all(conds))
             elif op == "rdm2":
                 bl = treelib.nondummy_basis(tree)
                 dims = [b.nbas for b in bl]
@@ -246,6 +265,18 @@ def make_harness(P):
                     got = np.asarray(rd[(i, j)])
                     conds.append(ctx.eq(got.reshape(ref.shape), ref) if got.size == ref.size else False)
                 ctx.check("two-site reduced density matrices = partial traces (any pair of nodes)", ctx.all(conds))
+                if not P.get("cplx") and pairs:
+                    # history on the same object: in-place scale, then the same query again
+                    kf = ctx.real("kscale", 0.5)
+                    a.scale(kf, inplace=True)
+                    psi2 = treelib.dense_ttns(a).reshape(dims)
+                    rd2 = a.calc_2site_rdm(pairs)
+                    conds = []
+                    for (i, j) in pairs:
+                        ref = _ptrace(psi2, firsts[i] + firsts[j])
+                        got = np.asarray(rd2[(i, j)])
+                        conds.append(ctx.eq(got.reshape(ref.shape), ref) if got.size == ref.size else False)
+                    ctx.check("after an in-place scale of the same object the two-site reduced density matrices are those of the NEW state", ctx.all(conds))
             elif op == "dumpload":
                 from checks.c14 import Store
                 st = Store()
